@@ -9,6 +9,7 @@ ids=${*:-$(ls /verif/seeded)}
 for id in $ids; do
   d=/verif/seeded/$id
   prop=$(python3 -c "import json;print(json.load(open('$d/meta.json'))['property'])")
+  if python3 -c "import json,sys;sys.exit(0 if json.load(open('$d/meta.json')).get('void_on_current_tree') else 1)"; then echo "VOID    $id ($prop): the seeded line is part of a later repair, see meta.json"; continue; fi
   ev=/tmp/evalseed-$id
   git -C /repo worktree remove --force "$ev" 2>/dev/null
   git -C /repo worktree add -q --detach "$ev" HEAD || exit 2
